@@ -401,6 +401,39 @@ impl<'a, 'tcx> M<'a, 'tcx> {
     }
 }
 
+/// Function items referenced from promoted constants of a body (e.g. `&[parse_statement]` arrays of fn pointers).
+pub fn export_promoted_fns<'tcx>(tcx: TyCtxt<'tcx>, def: LocalDefId) -> J {
+    let did = def.to_def_id();
+    if !tcx.is_mir_available(did) {
+        return J::Arr(vec![]);
+    }
+    let env = TypingEnv::post_analysis(tcx, did);
+    let mut out = Vec::new();
+    for body in tcx.promoted_mir(did).iter() {
+        let m = M { tcx, body, env };
+        for data in body.basic_blocks.iter() {
+            for s in data.statements.iter() {
+                if let StatementKind::Assign(box (_, rv)) = &s.kind {
+                    let mut ops: Vec<&Operand<'tcx>> = Vec::new();
+                    match rv {
+                        Rvalue::Use(op, ..) | Rvalue::Cast(_, op, _) | Rvalue::Repeat(op, _) => ops.push(op),
+                        Rvalue::Aggregate(_, xs) => ops.extend(xs.iter()),
+                        _ => {}
+                    }
+                    for op in ops {
+                        if let Operand::Constant(c) = op {
+                            if let ty::FnDef(d, a) = c.const_.ty().kind() {
+                                out.push(J::Obj(m.fn_def(*d, a)));
+                            }
+                        }
+                    }
+                }
+            }
+        }
+    }
+    J::Arr(out)
+}
+
 pub fn export_body<'tcx>(tcx: TyCtxt<'tcx>, def: LocalDefId) -> J {
     let did = def.to_def_id();
     if !tcx.is_mir_available(did) {
